@@ -831,7 +831,8 @@ func (s *efState) dfsCall(call *ssa.Call, resIdx int, seen map[ssa.Value]bool, s
 			}
 			return
 		} else {
-			s.notes["call through a function value at "+s.prog.Fset.Position(call.Pos()).String()+" not resolved: "+why] = true
+			pos := s.prog.Fset.Position(call.Pos())
+			s.notes[fmt.Sprintf("call through a function value at %s:%d not resolved: %s", filepath.Base(pos.Filename), pos.Line, why)] = true
 		}
 		s.unknown(call, "dynamic-call", set)
 		return
